@@ -8,7 +8,7 @@ from . import common
 
 ID = 'C07'
 LEVEL = 'exploration'
-BUDGET = {'quick': (3000, 75.0), 'thorough': (250000, 1500.0)}
+BUDGET = {'quick': (3000, 80.0), 'thorough': (250000, 1500.0)}
 RULE = ('one real stack (either data link layer, 1-2 CAs, in half the runs with its own transfers in flight) is fed a generated sequence of '
         '1..60 frames from a protocol-aware alphabet (TP.CM/TP.DT, FD.TP.CM/FD.TP.DT, multi-PG; every control byte incl. undefined, sessions 0..15, '
         'boundary/random size, packet and sequence fields, data lengths 0..8 / 0..64, local/foreign/global destinations, ordinary/own/254/255 sources, '
